@@ -182,6 +182,9 @@ pub struct EnvSpec {
     pub terminal: Vec<String>,
     pub fs_read_faults: Vec<(u64, IoFault)>,
     pub term_faults: Vec<(u64, IoFault)>,
+    /// Files (relative names) that exist but fail to read with this error.
+    #[serde(default)]
+    pub unreadable: Vec<(String, IoFault)>,
 }
 
 pub struct VmProc {
@@ -214,6 +217,11 @@ fn attach_env(vm: &mut vm::VM<SimState>, spec: &EnvSpec, cursor: &EnvCursor) {
     }
     *fs.read_faults.borrow_mut() = spec.fs_read_faults.iter().cloned().collect();
     fs.reads.set(cursor.fs_reads);
+    for (name, f) in &spec.unreadable {
+        let mut p = PathBuf::from(SIM_CWD);
+        p.push(name);
+        fs.unreadable.borrow_mut().insert(p, *f);
+    }
     vm.state.env.fs = Rc::new(RefCell::new(fs));
     let term = SimTerminal {
         lines: spec.terminal.clone(),
